@@ -2,8 +2,27 @@
 import os, glob, subprocess, sys
 
 
+def _parsable(coq_dir, files):
+    """drop files coqdep cannot lex (a half-written file must not break the
+    dependency computation of everything else)"""
+    import re
+    files = list(files)
+    for _ in range(20):
+        p = subprocess.run(["coqdep", "-Q", "theories", "Ferret"] + files, cwd=coq_dir,
+                           stdout=subprocess.DEVNULL, stderr=subprocess.PIPE, text=True)
+        bad = set(re.findall(r'Error: File "([^"]+)"', p.stderr))
+        bad = {b for b in bad if b in files}
+        if not bad:
+            return files
+        for b in bad:
+            print("coqproj: excluding unparsable file", b, file=sys.stderr)
+            files.remove(b)
+    return files
+
+
 def gen_coqproject(coq_dir):
     files = sorted(os.path.relpath(p, coq_dir) for p in glob.glob(os.path.join(coq_dir, "theories", "**", "*.v"), recursive=True))
+    files = _parsable(coq_dir, files)
     body = ("-Q theories Ferret\n-arg -w -arg -notation-overridden,-deprecated-hint-without-locality,"
             "-deprecated-instance-without-locality,-ambiguous-paths\n" + "\n".join(files) + "\n")
     p = os.path.join(coq_dir, "_CoqProject")
